@@ -1,6 +1,7 @@
 package main
 
 import (
+	"encoding/json"
 	"fmt"
 	"math"
 	"math/big"
@@ -83,6 +84,9 @@ func runC03(c *hc.Ctx) error {
 			continue
 		}
 		c.Count("set accepted: " + name)
+		if what, obs, exp := originMismatch(c.Repo, name, t); what != "" {
+			c.Violate(hc.Violation{What: what, Input: map[string]any{"set": name}, Observed: obs, Expected: exp})
+		}
 		sets = append(sets, setInfo{name: name, t: t, devs: map[int]float64{}, maxID: maxID(t)})
 	}
 	if len(sets) == 0 {
@@ -230,6 +234,57 @@ func runC03(c *hc.Ctx) error {
 	}
 	_ = os.Stderr
 	return nil
+}
+
+// originMismatch: the grid the index is built on starts at the corner of the tile-matrix-set extent, the corner being
+// read from the DOCUMENT itself, independently of package tms20: pointOfOrigin of tile matrix 0 is given in the order of
+// the document's orderedAxes (first axis Y / N / Lat = northing first), cornerOfOrigin defaults to topLeft, and the
+// extent spans cellSize * tileWidth * matrixWidth to the right and cellSize * tileHeight * matrixHeight downwards.
+func originMismatch(repo, name string, t tms20.TileMatrixSet) (string, any, any) {
+	raw, err := os.ReadFile(filepath.Join(repo, "tms20", "tilematrixsets", name+".json"))
+	if err != nil {
+		return "", nil, nil
+	}
+	var doc struct {
+		OrderedAxes  []string `json:"orderedAxes"`
+		TileMatrices []struct {
+			ID             string     `json:"id"`
+			PointOfOrigin  [2]float64 `json:"pointOfOrigin"`
+			CornerOfOrigin string     `json:"cornerOfOrigin"`
+			CellSize       float64    `json:"cellSize"`
+			TileWidth      int64      `json:"tileWidth"`
+			TileHeight     int64      `json:"tileHeight"`
+			MatrixWidth    int64      `json:"matrixWidth"`
+			MatrixHeight   int64      `json:"matrixHeight"`
+		} `json:"tileMatrices"`
+	}
+	if json.Unmarshal(raw, &doc) != nil || len(doc.OrderedAxes) != 2 {
+		return "", nil, nil
+	}
+	for _, m := range doc.TileMatrices {
+		if m.ID != "0" || (m.CornerOfOrigin != "" && m.CornerOfOrigin != "topLeft") {
+			continue
+		}
+		x, y := m.PointOfOrigin[0], m.PointOfOrigin[1]
+		switch doc.OrderedAxes[0] {
+		case "Y", "N", "Lat", "y", "n", "lat":
+			x, y = y, x
+		}
+		w := m.CellSize * float64(m.TileWidth*m.MatrixWidth)
+		h := m.CellSize * float64(m.TileHeight*m.MatrixHeight)
+		want := [4]float64{x, y - h, x + w, y}
+		g, err := gridFor(name, t, 0, false)
+		if err != nil {
+			return "", nil, nil
+		}
+		got := [4]float64{intToUnits(g.Ext[0]), intToUnits(g.Ext[1]), intToUnits(g.Ext[2]), intToUnits(g.Ext[3])}
+		for i := range want {
+			if math.Abs(got[i]-want[i]) > 1e-6*math.Max(1, math.Max(math.Abs(w), math.Abs(want[i]))) {
+				return "the grid does not start at the corner of the tile-matrix-set extent given by the document (pointOfOrigin in orderedAxes order)", got, want
+			}
+		}
+	}
+	return "", nil, nil
 }
 
 func intToUnits(v int64) float64 { return float64(v) / 1e10 }
